@@ -625,6 +625,69 @@ Definition wl_reply_len (r : V.C03.Model.wl_res) : N :=
   | V.C03.Model.WLErr _ => 0
   end.
 
+(* ================================================================== webrtc.proto (proto2) and its framing *)
+Record wr_msg := mkWr { wr_flag : option N; wr_message : option bytes }.
+Definition wr_msg0 : wr_msg := mkWr None None.
+Definition wr_step (m : wr_msg) (f : field) : option wr_msg :=
+  let '(num, v) := f in
+  if num =? 1 then match v with WVarint n => Some (mkWr (Some (to_u32 n)) (wr_message m)) | _ => None end
+  else if num =? 2 then match v with WLen b => Some (mkWr (wr_flag m) (Some b)) | _ => None end
+  else Some m.
+Definition dec_wr (b : bytes) : option wr_msg :=
+  match top_fields b with Some fs => fold_opt wr_step fs wr_msg0 | None => None end.
+Definition fields_wr (m : wr_msg) : list field :=
+  match wr_flag m with Some f => [(1, WVarint (i32_to_u64 f))] | None => [] end ++ f_opt_bytes 2 (wr_message m).
+(* WebRtcMessage::decode: (payload, flag); a flag outside FIN..FIN_ACK is dropped *)
+Definition webrtc_message (b : bytes) : option (option bytes * option N) :=
+  match dec_wr b with
+  | Some m => Some (wr_message m, match wr_flag m with Some f => if f <? 4 then Some f else None | None => None end)
+  | None => None
+  end.
+(* WebRtcMessage::encode(payload, flag) *)
+Definition webrtc_encode_message (payload : bytes) (flag : option N) : bytes :=
+  let body := encode_fields (fields_wr (mkWr flag (if is_nil payload then None else Some payload))) in
+  encode (blen body) ++ body.
+
+Definition WEBRTC_MAX_FRAME : N := Consts.C19_WEBRTC_MAX_FRAME_SIZE.
+(* extract_framed_message on the bytes buffered so far *)
+Inductive wfr := WfNeedMore | WfErr | WfFrame (body rest : bytes).
+Definition webrtc_extract (b : bytes) : wfr :=
+  match take_varint 10 b with
+  | None => if blen b <? 10 then WfNeedMore else WfErr
+  | Some (pre, rest) =>
+      if minimal pre then
+        let len := value pre mod 2 ^ 64 in
+        if WEBRTC_MAX_FRAME <? len then WfErr             (* refused before waiting for the body *)
+        else if blen rest <? len then WfNeedMore
+        else WfFrame (firstn (N.to_nat len) rest) (skipn (N.to_nat len) rest)
+      else WfErr
+  end.
+
+(* ================================================================== yamux (third-party, opaque) *)
+(* The yamux crate is not modelled; only the one computation behind known finding class 1 is:
+   a WindowUpdate frame with the SYN flag opens a stream with credit `header.credit + DEFAULT_CREDIT`
+   computed in u32 (yamux 0.13.10, connection.rs:730). *)
+Definition YAMUX_DEFAULT_CREDIT : N := 262144.
+Definition u32_add_checked (a b : N) : option N := if a + b <? 2 ^ 32 then Some (a + b) else None.
+Definition be32 (a b c d : N) : N := ((a * 256 + b) * 256 + c) * 256 + d.
+(* walks the frames (12-byte headers; only Data frames carry a body): is there a WindowUpdate|SYN
+   whose credit makes that addition overflow? *)
+Fixpoint yamux_syn_credit_overflow (fuel : nat) (b : bytes) : bool :=
+  match fuel with
+  | O => false
+  | S f =>
+      match b with
+      | _ :: ty :: _ :: f2 :: _ :: _ :: _ :: _ :: l1 :: l2 :: l3 :: l4 :: rest =>
+          let len := be32 l1 l2 l3 l4 in
+          if (ty =? 1) && N.odd f2 && match u32_add_checked len YAMUX_DEFAULT_CREDIT with None => true | Some _ => false end
+          then true
+          else if ty =? 0 then
+            if blen rest <? len then false else yamux_syn_credit_overflow f (skipn (N.to_nat len) rest)
+          else yamux_syn_credit_overflow f rest
+      | _ => false
+      end
+  end.
+
 (* ================================================================== allocation bound *)
 (* What the harness compares the measured peak (bytes allocated during one decode call, input
    excluded) with.  Every decoded byte string is copied once (<= |input| in total); the
@@ -638,5 +701,18 @@ Definition alloc_bound (input_len : N) : N := ALLOC_FACTOR * input_len + ALLOC_C
    each owns an AddressStore whose HashMap is pre-sized for 64 records *)
 Definition KAD_PEER_COST : N := 6144.
 Definition alloc_bound_kad (k input_len : N) : N := alloc_bound input_len + KAD_PEER_COST * (2 * k + 1).
+(* a yamux connection buffers at most one frame body (default limit 1 MiB) plus its windows;
+   the TLS certificate parser works on borrowed DER plus a constant *)
+Definition YAMUX_BOUND : N := 4194304.
+(* the very first frame is the trigger and passes every check that precedes the addition (version 0,
+   WindowUpdate, SYN without RST, odd = client-chosen stream id): the outcome is predicted *)
+Definition yamux_first_frame_trigger (b : bytes) : bool :=
+  match b with
+  | v :: ty :: _ :: f2 :: _ :: _ :: _ :: s4 :: l1 :: l2 :: l3 :: l4 :: _ =>
+      (v =? 0) && (ty =? 1) && N.odd f2 && negb (N.testbit f2 3) && N.odd s4 &&
+      match u32_add_checked (be32 l1 l2 l3 l4) YAMUX_DEFAULT_CREDIT with None => true | Some _ => false end
+  | _ => false
+  end.
+Definition TLS_CONST : N := 65536.
 (* framed receive: the frame buffer (<= max), the frames handed out (<= |stream|), constant *)
 Definition recv_alloc_bound (max stream_len : N) : N := max + 2 * stream_len + ALLOC_CONST.
